@@ -18,6 +18,9 @@
      F-l  drain does NOT call reschedule_queue when it returns                    (FDRpend, FDRfin)
      F-m  drain_queue queue-empty arm: fwaker := task waker BEFORE state := Idle   (FDQempty1, FDQempty2)
      F-n  a fresh DrainWaker (NotWoken) per job poll in drain_queue               (FDQdeq)
+     F-o  sync_background: the `rescheduled` flag starts out set; loop head: ready? -> done; rescheduled.swap(false)? -> claim, else wait;
+          a successful claim_pending_queue drops the queue's schedule entries, then run_one_job_now until the own job has run,
+          state := Idle, reschedule_queue; reschedule_queue sets the flag of every registered waiter          (FSBreg, FSBwait, FSBclaim, FRQ1)
    MODELLING DECISIONS
    * Wakers are called as NESTED FRAMES on the calling thread's stack ([FWake w] pushed on top), exactly as in the code; a wake
      "from another thread" is a wake executed by the firing caller's actor and interleaves anywhere with the runner.
@@ -39,7 +42,8 @@
      controlled runtime) are not modelled: in run_one_job_now they only re-read the state, which matters only after a stale
      WakeThread waker has written Running over WaitingForUnpark (the caller then re-polls without having been unparked).
    * ABSTRACTED: the pool ([FPIdle] may take a schedule entry whenever insched > 0; L1 proves the hand-over); schedule_thread;
-     sync_background's wait (blocked until the job has been run; the steal path is L1's); private result mutex / condvar of sync.
+     private result mutex / condvar of sync (the waiter of sync_background is blocked in [FSBwait] until its job has been run or
+     reschedule_queue has set its `rescheduled` flag [kicked]; wake_blocked itself is not a model datum: [kickall]).
    * OMITTED: the signaller's Drop (Canceled) - a queued job is never dropped here; future_sync; try_sync; several queues;
      nested operations; debug_assert!() critical sections (read-only core lock sections in debug builds have no model step).
    * [step_label] of [FPIdle] is the schedule lock (the queue-core lock is nested inside it: next_to_run examines one entry per
@@ -113,12 +117,15 @@ Inductive frame :=
 (* waker calls *)
 | FWake (w : waker) | FUnpark (c : nat)
 (* only in the variant order "requeue after wake_with" of [stepF] (fact f_requeue_before_park false): the late requeue *)
-| FDQlate (j : job).
+| FDQlate (j : job)
+(* sync_background: the waiter's attempt to take the queue over itself (claim_pending_queue) *)
+| FSBclaim.
 
 Inductive gev := GPush (o : nat) | GStart (o : nat) | GFinish (o : nat) | GSig (f v : nat) | GResolve (f v : nat).
 
-Record arec := { stack : list frame; token : bool; sres : bool }.
-#[export] Instance eta_arec : Settable _ := settable! Build_arec <stack; token; sres>.
+(* kicked = the `rescheduled` flag of a sync_background waiter (set by every reschedule_queue while the waiter is registered) *)
+Record arec := { stack : list frame; token : bool; sres : bool; kicked : bool }.
+#[export] Instance eta_arec : Settable _ := settable! Build_arec <stack; token; sres; kicked>.
 
 Record state := {
   qs : qstate; jobs : list job; insched : nat;
@@ -136,6 +143,10 @@ Definition upda (s : state) (a : nat) (f : arec -> arec) := s <| actors := alter
 Definition setstack (s : state) (a : nat) (st : list frame) := upda s a (fun x => x <| stack := st |>).
 Definition settoken (s : state) (c : nat) (b : bool) := upda s c (fun x => x <| token := b |>).
 Definition setsres (s : state) (c : nat) (b : bool) := upda s c (fun x => x <| sres := b |>).
+Definition setkick (s : state) (c : nat) (b : bool) := upda s c (fun x => x <| kicked := b |>).
+(* reschedule_queue sets the `rescheduled` flag of every registered waiter (wake_blocked) and notifies it.  The flag of an actor that
+   is not a waiter is never read ([FSBreg] sets it), so setting all flags is the same as setting those of the registered waiters *)
+Definition kickall (s : state) : state := s <| actors := (fun x => x <| kicked := true |>) <$> s.(actors) |>.
 
 (* events outside the configured range count as already fired (an await on them completes at once) *)
 Definition ev0 : evcell := {| fired := true; wakers := [] |}.
@@ -294,7 +305,7 @@ Definition step_fut (T : ftables) (s : state) (a : nat) (rest : list frame) (fr 
   end.
 
 (* ---------- sync (plain closure, or SchedulerFuture::sync() when tk = Some f), run_one_job_now, reschedule_queue ---------- *)
-Definition step_sync (T : ftables) (s : state) (a : nat) (sr : bool) (tok : bool) (rest : list frame) (fr : frame) : option state :=
+Definition step_sync (T : ftables) (s : state) (a : nat) (sr : bool) (tok : bool) (kk : bool) (rest : list frame) (fr : frame) : option state :=
   let goto s' f := Some (setstack s' a (f :: rest)) in
   let panic : option state := None in
   let B := T.(ft_base) in
@@ -313,14 +324,22 @@ Definition step_sync (T : ftables) (s : state) (a : nat) (sr : bool) (tok : bool
   | FSDpush op tk => goto (addlog (setsres (s <| jobs := s.(jobs) ++ [JSync op a tk] |>) a false) [GPush op]) FSDloop   (* [core] *)
   | FSDloop => if sr then goto s FSDidle else goto s FROdeq
   | FSDidle => Some (setstack (s <| qs := Idle |>) a (FRQ1 :: rest))                                            (* [core] *)
-  | FSBreg op tk => goto s (FSBpush op tk)                                                                     (* [core] wake_blocked.push *)
+  | FSBreg op tk => goto (setkick s a true) (FSBpush op tk)                     (* [core] wake_blocked.push; `rescheduled` starts out set *)
   | FSBpush op tk =>                                  (* [core] *)
       let s1 := addlog (setsres (s <| jobs := s.(jobs) ++ [JSync op a tk] |>) a false) [GPush op] in
       match s.(qs) with
       | Idle => Some (setstack s1 a (FRQ1 :: FSBwait :: rest))
       | _ => goto s1 FSBwait
       end
-  | FSBwait => if sr then goto s FSBdone else None     (* abstract: blocked until the job has been run by the queue's runner *)
+  | FSBwait =>                                        (* head of the waiter's loop, under its `ready` mutex *)
+      if sr then goto s FSBdone                       (* the job has been run (by whoever runs the queue) *)
+      else if kk then goto (setkick s a false) FSBclaim   (* rescheduled.swap(false) was true: try to take the queue over *)
+      else None                                       (* condvar wait: until the job is run or reschedule_queue kicks the waiter *)
+  | FSBclaim =>                                       (* claim_pending_queue: [sched], nested [core]; schedule.retain drops the queue's entries *)
+      match B.(t_claim) s.(qs) with
+      | Some st' => Some (setstack (s <| insched := 0 |> <| qs := st' |>) a (FSDloop :: FSBdone :: rest))   (* run jobs until the own job has run *)
+      | None => goto s FSBwait
+      end
   | FSBdone => Some (setstack s a rest)                (* [core] wake_blocked.retain *)
   | FROdeq =>                                         (* dequeue [core] *)
       if B.(t_dequeue_refuses) s.(qs) then goto s FSDloop
@@ -343,7 +362,8 @@ Definition step_sync (T : ftables) (s : state) (a : nat) (sr : bool) (tok : bool
   | FROpark j => if tok then goto (settoken s a false) (FROcheck j) else None      (* thread::park *)
   | FRQ1 =>                                           (* reschedule_queue [core] *)
       let '(st', push) := B.(t_resched) s.(qs) (negb (bool_decide (s.(jobs) = []))) in
-      if push then goto (s <| qs := st' |>) FRQ2 else Some (setstack (s <| qs := st' |>) a rest)
+      let s1 := kickall (s <| qs := st' |>) in         (* the waiters of wake_blocked are kicked in the same section *)
+      if push then goto s1 FRQ2 else Some (setstack s1 a rest)
   | FRQ2 => Some (setstack (s <| insched := S s.(insched) |>) a rest)               (* [sched] push_back *)
   | _ => None
   end.
@@ -446,7 +466,7 @@ Definition step (T : ftables) (s : state) (a : nat) : option state :=
       | FSFpoll _ | FDQtake _ | FDQdeq _ | FDQrequeue _ _ _ | FDQtake2 _ _ | FDQwfw _ _ | FDQstore _ _
       | FDQwfp _ _ | FDQempty1 _ | FDQempty2 _ | FDQidle _ => step_fut T s a rest fr
       | FS1 _ _ | FClosure _ _ | FSIidle | FSDpush _ _ | FSDloop | FSDidle | FSBreg _ _ | FSBpush _ _ | FSBwait | FSBdone
-      | FROdeq | FROpend _ | FROcheck _ | FROpark _ | FRQ1 | FRQ2 => step_sync T s a ac.(sres) ac.(token) rest fr
+      | FROdeq | FROpend _ | FROcheck _ | FROpark _ | FRQ1 | FRQ2 | FSBclaim => step_sync T s a ac.(sres) ac.(token) ac.(kicked) rest fr
       | FPIdle | FDRdeq | FDRrequeue _ | FDRpend | FDRfin => step_pool T s a rest fr
       | _ => step_caller T s a ac.(token) rest fr
       end
@@ -461,7 +481,7 @@ Definition frame_label (fr : frame) : lockclass * nat :=
   | FD1 _ | FDQdeq _ | FDQrequeue _ _ _ | FDQwfw _ _ | FDQwfp _ _ | FDQempty2 _ | FDQidle _
   | FS1 _ _ | FSIidle | FSDpush _ _ | FSDidle | FSBreg _ _ | FSBpush _ _ | FSBdone | FROdeq | FROpend _ | FROcheck _ | FRQ1
   | FDRdeq | FDRrequeue _ | FDRpend | FDRfin | FWake WQueue | FWake (WThread _) => (LCore, 0)
-  | FD2 | FRQ2 | FPIdle => (LSched, 0)          (* FPIdle: schedule lock, with the queue-core lock nested inside *)
+  | FD2 | FRQ2 | FPIdle | FSBclaim => (LSched, 0)          (* FPIdle: schedule lock, with the queue-core lock nested inside *)
   | FSFpoll f (* core nested *) | FDQtake f | FDQtake2 f _ | FDQstore f _ | FDQempty1 f | FFS1 f
   | FClosure _ (Some f) | FJob (JSync _ _ (Some f)) _ _ | FJob (JFut _ Waiting (PSignal f :: _)) _ _ => (LFres, f)
   | FWakeWith d _ | FWake (WDrain d) => (LDw, d)
@@ -473,7 +493,7 @@ Definition step_label (s : state) (a : nat) : option (lockclass * nat) :=
   ac ← s.(actors) !! a; fr ← head ac.(stack); Some (frame_label fr).
 
 (* configuration: caller scripts, number of pool runners, number of external events *)
-Definition mk_actor (st : list frame) : arec := {| stack := st; token := false; sres := false |}.
+Definition mk_actor (st : list frame) : arec := {| stack := st; token := false; sres := false; kicked := false |}.
 Definition init (scripts : list (list cop)) (npool nev : nat) : state :=
   {| qs := Idle; jobs := []; insched := 0; evs := replicate nev ev_new; futs := []; dws := []; dbl := [];
      actors := ((fun sc => mk_actor [FTop sc]) <$> scripts) ++ replicate npool (mk_actor [FPIdle]);
@@ -627,10 +647,15 @@ Definition terminalF (F : ffacts) (T : ftables) (s : state) : Prop := forall a, 
                           (FRQ1, FRQ2): treat it as a stutter before the caller's next FTop step
      FSBreg op tk         at Core (wake_blocked.push)
      FSBpush op tk        at Core
-     FSBwait              ABSTRACT: stands for the whole wait loop of sync_background (ready mutex, condvar wait / notify, the
-                          rescheduled flag, claim_pending_queue = Sched+Core, the steal path = run_one_job_now sections, Core := Idle,
-                          reschedule_queue).  A driver must either skip these sections for this caller until its job has been run
-                          (sres = true) or restrict replay to programs without a Background sync (L1 replays them).
+     FSBwait              the head of the waiter's loop, under its private `ready` mutex (not a model lock): the section of `ready`
+                          by the waiter's own task that ends with ready = false and is followed by claim_pending_queue is the step
+                          FSBwait -> FSBclaim (the `rescheduled` flag was set); the one that ends with ready = true is
+                          FSBwait -> FSBdone; a condvar wait is the blocked frame.  Sections on `ready` by other tasks (the job
+                          wrapper sets it, reschedule_queue passes through it) are not model steps.
+     FSBclaim             at Core, nested in Sched (claim_pending_queue); post Sched.  On success the frames FSDloop / FROdeq / FJob ..
+                          KRoj / FSDidle / FRQ1 / FRQ2 of the take-over follow (the same sections as sync_drain), then FSBdone.
+                          NOTE reschedule_queue sets the waiters' flags INSIDE its core section (FRQ1): a waiter may see its flag
+                          before that section is logged as ended; a driver takes the FRQ1 step at the `kick` mark.
      FSBdone              at Core (wake_blocked.retain)
      FROdeq               at Core ; post DA Core when a job was dequeued
      FROpend j            at Core
